@@ -29,13 +29,25 @@ LEVEL_TEXT = ('Lean theorems for every CSS parity-check matrix (pure-X / pure-Z 
               'is in the code space; zero syndrome gives zero correction for matching (minimum-weight contract, '
               'positive weights); which matrix / sector syndrome / weights / output half go together is part of '
               'the proved model, which is tied to the code on every run by boundary spies that replay the model '
-              'glue on the recorded solver answers.')
+              'glue on the recorded solver answers. XCubeMatchingDecoder: its whole pure-Python glue (sub-problems '
+              'derived from the lattice size, syndrome slicing, get_matched_pairs, connected components, projection '
+              'and loop scatters, decode_plane, minimum-weight choice, BP-OSD call) is modelled on the all-sizes '
+              'lattice models; theorems for every lattice size, syndrome and solver answer: a returned correction is '
+              'binary of length 2n; the XCube parity-check matrix is CSS; the Z half is the ldpc answer and (ldpc '
+              'contract) reproduces the X-row syndrome; the qubit_index keys of the loop scatter all exist iff '
+              'Lx <= Ly <= Lz (no KeyError from it on such lattices; kernel-checked KeyError witness on 3x2x2); a '
+              'kernel-checked counterexample shows the cube (Z-row) syndrome is not reproduced in general (2x2x3).')
 LEVEL_NOTE = ('trusted (modelled, not verified): PyMatching Matching.decode (returns a minimum-weight solution of '
               'H c = s), ldpc BpOsdDecoder.decode (return value solves H c = s for s in im H), uf_support.Support '
               '(returns a solution of H c = s); each contract is tested on every run by the spy. Tested only, not '
               'proved: constructibility of every (decoder, allowed code) pair; "returns a binary length-2n vector '
-              'without raising" for the incomplete decoders (sweep-match, MBP, XCube matching), whose internals '
-              'are modelled by interface only (sweep automata: C10).')
+              'without raising" for the incomplete decoders sweep-match and MBP, whose internals are modelled by '
+              'interface only (sweep automata: C10). XCubeMatchingDecoder: modelled completely and compared on '
+              'every run (every sliced syndrome, solver answer, helper result, scatter vector, result or KeyError '
+              'key, all lattices in {2,3}^3 and a few with a side of 4); "never raises" is proved for the loop '
+              'scatter only (the look-up of the known finding); absence of KeyError from the other dict look-ups '
+              'is tested, not proved; list(set) order is modelled as ascending (CPython, at most 4 small ints: '
+              'sides <= 4), the theorems hold for every order.')
 TECHNIQUE = ('Lean 4 proof over a model of the decoder glue with the third-party solver as a parameter carrying '
              'an explicit contract + mock spies at the solver boundary replayed through the compiled model driver')
 TRUSTED = ['PyMatching Matching(H, spacelike_weights=w).decode(s): minimum-weight solution of H c = s (mod 2) '
@@ -43,7 +55,11 @@ TRUSTED = ['PyMatching Matching(H, spacelike_weights=w).decode(s): minimum-weigh
            'ldpc BpOsdDecoder.decode(s): returned vector solves H c = s whenever s is in the image of H; it is a '
            'function of (matrix, channel probabilities, syndrome) (contract hypothesis; tested by the spy)',
            'panqec uf_support.Support(s, H).decode(): solves H c = s on the toric code (contract hypothesis; tested)',
-           'SweepDecoder3D / RotatedSweepDecoder3D .decode return a Z-only vector of length 2n (black box here; C10)']
+           'SweepDecoder3D / RotatedSweepDecoder3D .decode return a Z-only vector of length 2n (black box here; C10)',
+           'XCubeMatchingDecoder: CPython iteration order of a set of at most four ints below 8 is ascending '
+           '(list(nodes_in_component)[0] becomes plane_proj); set.pop() order does not change the set of popped nodes; '
+           'hand-written lattice models of XCubeCode / Toric2DCode (tied to the code by C01/C02 and by the matrices '
+           'the spies record)']
 ASSUMPTIONS = ['syndromes are syndromes of Pauli errors (s = H e); parity-check entries are 0/1',
                'per-qubit marginals px+py, pz+py lie in (0, 1/2) for the zero-syndrome claim (positive weights)']
 ANCHOR_FILES = ['panqec/decoders/matching/_matching_decoder.py', 'panqec/decoders/union_find/uf_decoder.py',
@@ -51,7 +67,8 @@ ANCHOR_FILES = ['panqec/decoders/matching/_matching_decoder.py', 'panqec/decoder
                 'panqec/decoders/sweepmatch/_sweep_match_decoder.py',
                 'panqec/decoders/sweepmatch/_rotated_sweep_match_decoder.py',
                 'panqec/decoders/base/_base_decoder.py', 'panqec/config.py',
-                'panqec/error_models/_base_error_model.py']
+                'panqec/error_models/_base_error_model.py', 'panqec/decoders/xcube/_xcube_matching_decoder.py']
+PROPERTY_MODULES = ['PanqecVerif.Properties.C05', 'PanqecVerif.Properties.C05XCube']
 
 warnings.filterwarnings('ignore')
 
@@ -638,6 +655,12 @@ def correspondence(ctx):
                              'direction': [0.25, 0.25, 0.5], 'p': 0.125},
                          [np.zeros(m, dtype='uint8'), np.zeros(m + 1, dtype='uint8')], f'non-css:{dname}')
     streams.append(s.run())
+
+    # --- XCubeMatchingDecoder: complete model (Model/XCubeDecoder.lean), see harness/xcube_dec.py
+    from harness import xcube_dec as XC
+    rngx = ctx.np_rng(55)
+    streams.append(XC.weight12_stream(ctx, rngx))
+    streams.append(XC.random_stream(ctx, rngx))
     return streams
 
 
@@ -821,8 +844,8 @@ def oracle(ctx, deep=False, broken=None):
     pairs = sorted({(c['decoder'], c['code']) for c in cases})
     return fails, {'evaluations': n_eval, 'decoder_code_pairs_constructed_and_run (tested)': len(pairs),
                    'incomplete decoders (interface only, tested)': ['SweepMatchDecoder', 'RotatedSweepMatchDecoder',
-                                                                    'MemoryBeliefPropagationDecoder',
-                                                                    'XCubeMatchingDecoder']}
+                                                                    'MemoryBeliefPropagationDecoder'],
+                   'incomplete decoders (modelled completely, validity proved)': ['XCubeMatchingDecoder']}
 
 
 def replay(ctx, payload):
